@@ -21,6 +21,8 @@ Qed.
 Section Safe.
   Variable cap : nat.
   Hypothesis OK : slots_ok cap = true.
+  Variable bsz : nat.
+  Hypothesis Hbsz : cap < bsz.
   Notation Inv := (MsPqInv.Inv cap).
   Notation safe := (@Conc.safe G V ev Aux tv view Inv).
 
@@ -161,10 +163,10 @@ Section Safe.
   Qed.
 
   Lemma child_inv g a tr p c :
-    p <> c -> Inv g a tr -> Inv (fst (fst (body_child cap p c g))) a tr /\ snd (body_child cap p c g) = [].
+    p <> c -> Inv g a tr -> Inv (fst (fst (body_child bsz p c g))) a tr /\ snd (body_child bsz p c g) = [].
   Proof.
     intros Hne Hi. unfold body_child. destruct (tag_eqb (ntag (heap g c)) TEmpty); [auto|].
-    destruct (Nat.ltb (S c) (bufsize cap)); [auto|].
+    destruct (Nat.ltb (S c) bsz); [auto|].
     destruct (cmp_swap_inv g a tr p c Hne Hi) as [H1 H2]. destruct (cmp_swap p c g) as [[g' v] es]. cbn [fst snd] in *. auto.
   Qed.
 
@@ -195,14 +197,14 @@ Section Safe.
   Qed.
 
   Lemma safe_heapify_pop lf t : forall hf p c P, 1 <= p -> c = 2 * p ->
-    safe t (heapify_pop hf lf cap p c) P (optQ (fun _ l' => l' = P)).
+    safe t (heapify_pop hf lf bsz p c) P (optQ (fun _ l' => l' = P)).
   Proof.
     induction hf as [|hf IH]; intros p c P Hp Hc; [exact I|]. cbn [heapify_pop].
     assert (Hc0 : c <> 0) by lia. assert (Hp0 : p <> 0) by lia. assert (Hpc : p <> c) by lia.
-    destruct (Nat.ltb c (bufsize cap)).
+    destruct (Nat.ltb c bsz).
     - apply safe_lock_node; [exact Hc0|]. intros g a tr Hi Hv.
       destruct (child_inv g a tr p c Hpc Hi) as [H1 H2]. split; [exact H1|]. split; [exact H2|]. intros _.
-      destruct (vn (unbusy (snd (fst (body_child cap p c g))))) as [|[|[|n]]].
+      destruct (vn (unbusy (snd (fst (body_child bsz p c g))))) as [|[|[|n]]].
       + apply safe_unlock_none; [exact Hc0|]. apply safe_unlock_none; [exact Hp0|]. reflexivity.
       + apply safe_lock_node; [discriminate|]. intros g2 a2 tr2 Hi2 Hv2.
         destruct (right_inv g2 a2 tr2 c Hi2) as [K1 K2]. split; [exact K1|]. split; [exact K2|]. intros _.
@@ -228,7 +230,7 @@ Section Safe.
   Lemma snoc2 {X} (tr : list X) a b : tr ++ [a; b] = (tr ++ [a]) ++ [b].
   Proof. rewrite <- app_assoc. reflexivity. Qed.
 
-  Lemma safe_push hf lf t x : safe t (push cap hf lf t x) (Vpush x) (optQ (Qpush x)).
+  Lemma safe_push hf lf t x : safe t (push cap bsz hf lf t x) (Vpush x) (optQ (Qpush x)).
   Proof.
     unfold push. apply safe_lock. intros g a tr Hi Hv Hfree. cbn [lockbit] in Hfree.
     pose proof (Inv_acq0 cap g a tr t (Vpush x) Hv eq_refl Hfree Hi) as H1. cbn [set_hs Vpush hs hand pstore pclear inop pfail] in H1.
@@ -256,7 +258,7 @@ Section Safe.
       destruct (brc_inc (ctr g1)) as [s c'] eqn:Einc. cbn [fst snd] in *.
       set (i := slot (S (count g1))) in *. rewrite Hslot.
       assert (Ri : 1 <= i <= cap) by (apply (slot_range cap OK); lia).
-      assert (Hin : Nat.ltb i (bufsize cap) = true) by (apply Nat.ltb_lt; unfold bufsize; lia). rewrite Hin.
+      assert (Hin : Nat.ltb i bsz = true) by (apply Nat.ltb_lt; lia). rewrite Hin.
       cbn [set_pstore P1 hs hand pstore pclear inop pfail] in H2.
       exists (updv a1 t (mkTv true (Some x) (Some i) None true false)). split; [|split].
       + apply Inv_irrelevant; [reflexivity|exact H2].
@@ -280,7 +282,7 @@ Section Safe.
   Definition Vpop : tv := mkTv false None None None true false.
   Definition Qpop : option item -> tv -> Prop := fun r l' => l' = mkTv false r None None true false.
 
-  Lemma safe_pop hf lf t : safe t (pop cap hf lf) Vpop (optQ Qpop).
+  Lemma safe_pop hf lf t : safe t (pop bsz hf lf) Vpop (optQ Qpop).
   Proof.
     unfold pop. apply safe_lock. intros g a tr Hi Hv Hfree. cbn [lockbit] in Hfree.
     pose proof (Inv_acq0 cap g a tr t Vpop Hv eq_refl Hfree Hi) as H1. cbn [set_hs Vpop hs hand pstore pclear inop pfail] in H1.
@@ -303,7 +305,7 @@ Section Safe.
       destruct (brc_dec (ctr g1)) as [s c'] eqn:Edec. cbn [fst snd] in *.
       set (b := slot (count g1)) in *. rewrite Hslot.
       assert (Rb : 1 <= b <= cap) by (apply (slot_range cap OK); pose proof (iC _ _ _ _ H1) as [_ C2]; lia).
-      assert (Hin : Nat.ltb b (bufsize cap) = true) by (apply Nat.ltb_lt; unfold bufsize; lia). rewrite Hin.
+      assert (Hin : Nat.ltb b bsz = true) by (apply Nat.ltb_lt; lia). rewrite Hin.
       cbn [set_pclear P1 hs hand pstore pclear inop pfail] in H2.
       exists (updv a1 t (mkTv true None None (Some b) true false)). split; [|split].
       + apply Inv_irrelevant; [reflexivity|exact H2].
@@ -358,7 +360,7 @@ Section Safe.
   (** *** client operations *)
   Definition Qop : bool -> tv -> Prop := fun ok l' => ok = true -> l' = idle.
 
-  Lemma safe_run_op hf lf t o : safe t (run_op cap hf lf t o) idle Qop.
+  Lemma safe_run_op hf lf t o : safe t (run_op cap bsz hf lf t o) idle Qop.
   Proof.
     destruct o as [x|]; cbn [run_op Conc.safe].
     - intros g a tr Hi Hv.
@@ -400,21 +402,21 @@ Section Safe.
         split; [apply frame_refl|]. intros E. discriminate.
   Qed.
 
-  Lemma safe_run_ops hf lf t os : safe t (run_ops cap hf lf t os) idle (@Conc.QTrue tv).
+  Lemma safe_run_ops hf lf t os : safe t (run_ops cap bsz hf lf t os) idle (@Conc.QTrue tv).
   Proof.
     induction os as [|o r IH]; cbn [run_ops]; [exact I|].
     apply Conc.safe_bind. eapply Conc.safe_weaken; [|apply safe_run_op].
     intros [|] l' Hl'; [rewrite (Hl' eq_refl); exact IH|exact I].
   Qed.
 
-  Lemma safe_thread hf lf t os : safe t (thread_prog cap hf lf t os) idle (@Conc.QTrue tv).
+  Lemma safe_thread hf lf t os : safe t (thread_prog cap bsz hf lf t os) idle (@Conc.QTrue tv).
   Proof.
     unfold thread_prog. cbn [Conc.safe]. intros g a tr Hi Hv. cbn [a_begin fst snd]. exists a.
     split; [apply Inv_irrelevant; [reflexivity|exact Hi]|]. split; [apply frame_refl|]. rewrite Hv. apply safe_run_ops.
   Qed.
 
   Lemma nth_thread_progs hf lf ths : forall k t p,
-    nth_error (thread_progs cap hf lf k ths) t = Some p -> exists os, p = thread_prog cap hf lf (k + t) os.
+    nth_error (thread_progs cap bsz hf lf k ths) t = Some p -> exists os, p = thread_prog cap bsz hf lf (k + t) os.
   Proof.
     induction ths as [|os r IH]; intros k t p H; [destruct t; discriminate|].
     destruct t as [|t]; cbn in H.
@@ -422,7 +424,7 @@ Section Safe.
     - destruct (IH (S k) t p H) as [os' E]. exists os'. rewrite E. f_equal. lia.
   Qed.
 
-  Lemma init_ok hf lf ths : Conc.cfg_ok view Inv (init_cfg cap hf lf ths).
+  Lemma init_ok hf lf ths : Conc.cfg_ok view Inv (init_cfg cap bsz hf lf ths).
   Proof.
     exists (mkA (fun _ => idle) []). split; [apply Inv_init|].
     intros t p Hp. cbn [init_cfg Conc.threads] in Hp. destruct (nth_thread_progs hf lf ths 0 t p Hp) as [os ->].
@@ -430,7 +432,7 @@ Section Safe.
   Qed.
 
   Theorem reach_Inv hf lf ths c :
-    Conc.reach (init_cfg cap hf lf ths) c -> exists a, Inv (Conc.shared c) a (Conc.trace c).
+    Conc.reach (init_cfg cap bsz hf lf ths) c -> exists a, Inv (Conc.shared c) a (Conc.trace c).
   Proof. intros Hr. exact (Conc.reach_Inv (init_ok hf lf ths) Hr). Qed.
 End Safe.
 
@@ -438,20 +440,22 @@ End Safe.
 Section Theorems.
   Variable cap : nat.
   Hypothesis OK : slots_ok cap = true.
+  Variable bsz : nat.
+  Hypothesis Hbsz : cap < bsz.
 
   (** Conservation.  At every reachable configuration the items in the heap cells, together with the items
       that operations in progress carry in their hands ([held], at most one per thread, and only threads with
       an operation in progress have one) and the items already handed back to clients (returned by pop, or
       refused by a failed push) are exactly the items of the pushes invoked so far -- as multisets. *)
   Theorem mspq_conservation hf lf ths c :
-    Conc.reach (init_cfg cap hf lf ths) c ->
+    Conc.reach (init_cfg cap bsz hf lf ths) c ->
     exists held : list (nat * item),
       NoDup (map fst held) /\
       (forall t x, In (t, x) held -> pend (Conc.trace c) t = true) /\
       Permutation (heap_items cap (Conc.shared c) ++ map snd held ++ given_back (Conc.trace c))
                   (invoked (Conc.trace c)).
   Proof.
-    intros Hr. destruct (reach_Inv cap OK hf lf ths c Hr) as [a Hi].
+    intros Hr. destruct (reach_Inv cap OK bsz Hbsz hf lf ths c Hr) as [a Hi].
     destruct (iH _ _ _ _ Hi) as (H1 & H2 & H3).
     exists (held a). split; [exact H1|]. split.
     - intros t x Hin. rewrite (iP _ _ _ _ Hi t). apply H3. apply H2 in Hin. rewrite Hin. discriminate.
@@ -461,7 +465,7 @@ Section Theorems.
 
   (** quiescent configurations: nothing is in flight *)
   Corollary mspq_conservation_quiescent hf lf ths c :
-    Conc.reach (init_cfg cap hf lf ths) c ->
+    Conc.reach (init_cfg cap bsz hf lf ths) c ->
     (forall t, pend (Conc.trace c) t = false) ->
     Permutation (heap_items cap (Conc.shared c) ++ given_back (Conc.trace c)) (invoked (Conc.trace c)).
   Proof.
@@ -471,7 +475,7 @@ Section Theorems.
 
   (** no duplication: if the client never pushes the same item twice, no item is in two places *)
   Corollary mspq_no_duplicates hf lf ths c :
-    Conc.reach (init_cfg cap hf lf ths) c -> NoDup (invoked (Conc.trace c)) ->
+    Conc.reach (init_cfg cap bsz hf lf ths) c -> NoDup (invoked (Conc.trace c)) ->
     NoDup (heap_items cap (Conc.shared c) ++ given_back (Conc.trace c)).
   Proof.
     intros Hr Hnd. destruct (mspq_conservation hf lf ths c Hr) as (held & _ & _ & H3).
@@ -484,10 +488,10 @@ Section Theorems.
       item counter and the number of occupied cells at that very instant in the ghost event "g_full n k c":
       both equal the capacity; and every push that returns false has emitted that event. *)
   Theorem mspq_push_fails_only_if_full hf lf ths c :
-    Conc.reach (init_cfg cap hf lf ths) c ->
+    Conc.reach (init_cfg cap bsz hf lf ths) c ->
     full_events_ok cap (Conc.trace c) /\ fails_ok (Conc.trace c) = true.
   Proof.
-    intros Hr. destruct (reach_Inv cap OK hf lf ths c Hr) as [a Hi].
+    intros Hr. destruct (reach_Inv cap OK bsz Hbsz hf lf ths c Hr) as [a Hi].
     destruct (iF _ _ _ _ Hi) as (F1 & _ & F3). split; assumption.
   Qed.
 End Theorems.
